@@ -3,13 +3,15 @@ import itertools
 from genlib import *
 
 LEAN_MODULES = ["MpirProofs.Props.C18_scanrt2"]
-THEOREMS = ["Mpir.Scanf.print_scan_roundtrip_Zi"]
+THEOREMS = ["Mpir.Scanf.print_scan_roundtrip_Zi", "Mpir.Scanf.print_scan_roundtrip_Q", "Mpir.Scanf.print_scan_roundtrip_Qi"]
 TRUSTED = []
 ASSUMPTIONS = ["print_scan_roundtrip_Zi / _Q: the printed text is assumed shorter than INT_MAX-1 characters (doscan.c:230 cuts a field there; at exactly "
                "INT_MAX-1 the look-ahead GET is the one cut, which the proof does not follow); documented exceptions are hypotheses (no digit "
                "printed; o/x/X of a non-zero value need `#` to be read by %Zi; a zero in front of a decimal number is taken for the octal indicator)"]
 RULE = ("%Zi grid: 32 flag subsets x width {none,1,12,*,-*} x precision {none,.0,.1,.7,.*} x conv d i o x X x values (0, 1..9, 8/9-digit octal "
-        "traps 19 0o17 190, +-LONG_MAX, +-2^64, +-10^40, random) read by %Zi%n through gmp_sscanf and gmp_fscanf; every line both with and without `#`")
+        "traps 19 0o17 190, +-LONG_MAX, +-2^64, +-10^40, random) read by %Zi%n through gmp_sscanf and gmp_fscanf; every line both with and without `#`; "
+        "%Q grid: 32 flag subsets x width {none,3,25,*,-*} x precision {none,.,.0,.1,.9,.*} x conv d i o x X x rationals (0/1, 0/5, n/1, 2/4, -10/3, "
+        "19/3, 10^40/2^64, -255/16, random) read by the matching conversion and by %Qi")
 
 FLAGSETS = ["".join(c) for r in range(6) for c in itertools.combinations("-+ #0", r)]
 LMAX = 2 ** 63 - 1
@@ -41,7 +43,35 @@ def zi_directed(rng, tier):
             yield line(False, pf + "|", "%Zi%n", [], v, rng)
             yield line(False, pf, "%*Zi%n", [], v, rng)
 
+QVALS = [(0, 1), (0, 5), (1, 1), (-9, 1), (LMAX, 1), (1, 2), (-10, 3), (2, 4), (19, 3), (-19, 8), (17, 19), (10 ** 40, 2 ** 64), (-255, 16), (8, 9),
+         (-1, 10 ** 20), (7, 1), (0o17, 0o21)]
+MATCH = {"d": "d", "i": "d", "o": "o", "x": "x", "X": "X"}
+
+def q_grid(rng, tier):
+    nv = 2 if tier == "quick" else 6
+    for fl in FLAGSETS:
+        for (w, ws) in [("", None), ("3", None), ("25", None), ("*", rng.choice([6, 30])), ("*", -rng.choice([6, 30]))]:
+            for (p, ps) in [("", None), (".", None), (".0", None), (".1", None), (".9", None), (".*", rng.choice([0, 1, 5, 12, -1]))]:
+                stars = [x for x in (ws, ps) if x is not None]
+                for c in "dioxX":
+                    for v in rng.sample(QVALS, nv) + [(rand_int(rng, rng.choice([1, 3])), abs(rand_int(rng, 2, False)) + 2)]:
+                        yield line(True, "%" + fl + w + p + "Q" + c, "%Q" + (MATCH[c] if rng.random() < 0.5 else "i") + "%n", stars, v, rng)
+
+def q_directed(rng, tier):
+    """numerator 0 with precision 0, `#` on a zero numerator (mixed bases under %Qi), precision counted on the whole string,
+    denominator 1, non-canonical forms, text followed by a literal"""
+    for v in [(0, 1), (0, 5), (0, 16), (5, 8), (-5, 8), (2, 4), (19, 3), (17, 1), (-0xff, 0x10), (6, 3), (10, 10)]:
+        for pf in ["%Qd", "%.0Qd", "%.Qd", "%.4Qd", "%.5Qd", "%06Qd", "%-6Qd", "%+Qd", "% Qd", "%#Qo", "%#.0Qo", "%#.6Qo", "%#09Qo", "%Qo", "%#Qx",
+                   "%#.0Qx", "%#.8Qx", "%#012Qx", "%#-12QX", "%Qx", "%QX", "%#+Qx"]:
+            c = pf[-1]
+            for sc in (MATCH[c], "i"):
+                yield line(True, pf, "%Q" + sc + "%n", [], v, rng)
+                yield line(True, pf + "|", "%Q" + sc + "%n", [], v, rng)
+            yield line(True, pf, "%*Qi%n", [], v, rng)
+
 def gen_ops(rng, tier, ctx=None):
+    yield from q_directed(rng, tier)
+    yield from q_grid(rng, tier)
     yield from zi_directed(rng, tier)
     yield from zi_grid(rng, tier)
 
